@@ -198,6 +198,22 @@ def run(chk, replay=None):
     chk.control('gen: expected catalog with one event removed flagged', check_case(ctl, 0)[0] is not None)
 
     # ---------------------------------------------------------------- random traces
+    def region_of(kind):
+        from csep.core.regions import CartesianGrid2D, QuadtreeGrid2D, compute_vertices
+        from csep.models import Polygon
+        if kind == 'cart2':
+            return (CartesianGrid2D.from_origins(numpy.array([[-118.0, -34.0], [-116.0, -34.0]]), dh=2.0),
+                    lambda lon, lat: (-118.0 <= lon < -114.0) and (-34.0 <= lat < -32.0))
+        if kind == 'cart-edge':
+            return (CartesianGrid2D.from_origins(numpy.array([[-117.0, -33.0], [-115.0, -33.0]]), dh=2.0),
+                    lambda lon, lat: (-117.0 <= lon < -113.0) and (-33.0 <= lat < -31.0))
+        if kind == 'cart-flag':
+            org = numpy.array([[-118.0, -34.0], [-116.0, -34.0]])
+            reg = CartesianGrid2D([Polygon(b) for b in compute_vertices(org, 2.0)], 2.0, mask=numpy.array([1.0, 0.0]))
+            return reg, (lambda lon, lat: (-118.0 <= lon < -116.0) and (-34.0 <= lat < -32.0))
+        reg = QuadtreeGrid2D.from_quadkeys(['2', '1'])
+        return reg, (lambda lon, lat: (lon < 0 and lat < 0) or (lon >= 0 and lat >= 0))
+
     traces, metas = [], []
     OPS = ['<', '<=', '>', '>=', '==']
     for t in range(60 if quick else 600):
@@ -216,12 +232,14 @@ def run(chk, replay=None):
         pool = {a: sorted({v for tri in TRIPLES[a] for v in tri} | {thr[j] for j in range(m) if st_attrs[j] == a}) for a in ATTRS}
         # origin times are whole milliseconds: around a fractional threshold use its two integer neighbours
         pool['origin_time'] = sorted({int(v // 1) for v in pool['origin_time']} | {int(v // 1) + 1 for v in pool['origin_time'] if not float(v).is_integer()})
-        from csep.core.regions import CartesianGrid2D
-        region = CartesianGrid2D.from_origins(numpy.array([[-118.0, -34.0], [-116.0, -34.0]]), dh=2.0)
+        # the region of the spatial filter: two cells, one cell whose origin is a pool value (edge-inclusive), a lattice
+        # with a flagged-out cell, a quadtree grid made of two of the four zoom-1 tiles
+        region_kind = ['cart2', 'cart-edge', 'cart-flag', 'quadtree'][t % 4]
+        region, inside_fn = region_of(region_kind)
         rows, events = [], []
         for i in range(n):
             f = {a: rng.choice(pool[a]) for a in ATTRS}
-            inside = (-118.0 <= f['longitude'] < -114.0) and (-34.0 <= f['latitude'] < -32.0)
+            inside = inside_fn(f['longitude'], f['latitude'])
             rows.append(('u%d' % (i + 1), f['origin_time'], f['latitude'], f['longitude'], f['depth'], f['magnitude']))
             cm = []
             for j in range(m):
@@ -261,7 +279,7 @@ def run(chk, replay=None):
             calls.append({'k': 'list' if k == 'stored' else k, 'idx': idx, 'inplace': inplace, 'obj': oi + 1, 'ret': ids_of(r),
                           'objs': [ids_of(x) for x in objs]})
         traces.append({'stmts': st_ops, 'events': events, 'calls': calls})
-        metas.append({'n': n, 'statements': [statement(st_attrs[j], st_ops[j], thr[j], use_dt[j]) for j in range(m)],
+        metas.append({'n': n, 'region': region_kind, 'statements': [statement(st_attrs[j], st_ops[j], thr[j], use_dt[j]) for j in range(m)],
                       'calls': [(c['k'], c['idx'], c['inplace']) for c in calls], 'failed': failed})
         chk.nontrivial('tr|%d|%s|%d' % (n, st_ops, t))
     bad = copy.deepcopy(next(tr for tr in traces if tr['calls'] and len(tr['calls'][0]['ret']) >= 1 and tr['calls'][0]['ret'] != [-1]))
